@@ -116,7 +116,7 @@ int main(int argc, char** argv) {
     vh::silence_stdout();
     vh::Rng rng(a.seed);
 
-    // --mode all:<lo>..<hi>:<k>  |  fam:<name,name,...>:<k>[:<part>/<parts>]  (handler names of decoder.h)
+    // --mode all:<lo>..<hi>:<k>  |  exp:<lo>..<hi>:<k>  |  wild:<lo>..<hi>:<k>  |  fam:<name,name,...>:<k>[:<part>/<parts>]  (handler names of decoder.h)
     char kind[16] = "all";
     unsigned lo = 0, hi = 65535, k = 1;
     std::vector<unsigned> words;
@@ -140,6 +140,15 @@ int main(int argc, char** argv) {
     } else {
         if (!a.mode.empty()) std::sscanf(a.mode.c_str(), "%15[^:]:%u..%u:%u", kind, &lo, &hi, &k);
         for (unsigned w = lo; w <= hi; ++w) words.push_back(w);
+        if (std::strcmp(kind, "exp") == 0) {     // exp:<lo>..<hi>:<k>  only the first words that take a second word (C02)
+            std::vector<unsigned> two;
+            for (unsigned w : words) {
+                bool need = false;
+                try { need = Decode<vrec::Rec>((u16)w).NeedExpansion(); } catch (...) {}
+                if (need) two.push_back(w);
+            }
+            words.swap(two);
+        }
     }
     (void)generator_shape;
 
@@ -216,6 +225,10 @@ int main(int argc, char** argv) {
                 if (rng.chance(1, 4)) { static const u32 e[] = {0, 1, 2, 0x3F, 0x40, 0x3FFBF, 0x3FFC0, 0x3FFFD, 0x3FFFE, 0x3FFFF}; pc = pre[vlayout::I_pc] = e[rng.below(10)]; }
                 if (rng.chance(1, 4)) pre[vlayout::I_prpage] = 1 + rng.below(15);
             } else if (!gen) {
+            if (std::strcmp(kind, "exp") == 0 && rng.chance(1, 3)) {   // two-word instructions at and across the 64K bank boundaries
+                static const u32 e[] = {0xFFFE, 0xFFFF, 0x10000, 0x1FFFE, 0x1FFFF, 0x20000, 0x2FFFE, 0x2FFFF, 0x30000, 0x3FEFE};
+                pc = pre[vlayout::I_pc] = e[rng.below(10)];
+            }
             if (pc < 0x80) pc = pre[vlayout::I_pc] = 0x80 + rng.below(64);
             if (pc > 0x3FF00) pc = pre[vlayout::I_pc] = 0x3FF00 - rng.below(64);
             }
